@@ -119,7 +119,7 @@ def units(tier, seed):
     sel = [fams[seed % len(fams)], fams[(seed + 1) % len(fams)]] if q else fams
     for fam in sel:
         n = {"lists": (5, 6), "marks": (3, 4), "tables": (4, 5), "breaks": (4, 5)}[fam][0 if q else 1]
-        nbf = 8 if q else 32
+        nbf = 24 if q else 32
         for b in range(nbf):
             out.append({"kind": "import", "sid": "table" if fam == "tables" else "list", "vocab": fam, "n": n, "block": b,
                         "nblocks": nbf, "name": f"import/family/{fam}<={n}#{b}/{nbf}"})
